@@ -282,22 +282,33 @@ def r11_4(ctx: Ctx) -> None:
     prov_ctor = provenance(func, thr) if thr is not None else set()
     current = any(p.endswith("tta_threshold") for p in prov_ctor)
     stored = any("json" in p or "threshold]" in p for p in prov_ctor) or "json[" in txt(thr)
-    gates = [n for n in walk_local(func) if isinstance(n, ast.If) and "gc_content" in txt(n.test)]
-    gate_current = all("tta_threshold" in txt(n.test) for n in gates) and bool(gates)
+    # the decisions, read off the returns: what each return is conditioned on (tests resolved through locals), whatever
+    # the nesting or merging of the `if`s
+    from ..flow import inline_reaching, path_facts
+    cfg = CFG(func)
+
+    def conditions(ret: ast.Return) -> List[str]:
+        out = []
+        for expr, truth in path_facts(cfg, ret):
+            anchor = expr if hasattr(expr, "_parent") else ret
+            out.append(txt(inline_reaching(cfg, anchor, expr)).replace("'", '"'))
+        return out
+    rets = [r for r in walk_local(func) if isinstance(r, ast.Return)]
+    gated = [(r, conditions(r)) for r in rets]
+    gated = [(r, conds) for r, conds in gated if any("gc_content" in c for c in conds)]
+    skips = [(r, conds) for r, conds in gated if r.value is not None and txt(r.value) != "None"]
+    gate_current = bool(skips) and all(any("gc_content" in c and "tta_threshold" in c for c in conds)
+                                       and not any("gc_content" in c and 'json["threshold"]' in c and "tta_threshold" not in c for c in conds)
+                                       for _, conds in skips)
     ctx.ob("R11.4", TTA, ctor[0], qual, "recorded threshold", current and not stored and gate_current,
            "the regenerated results are gated by the current threshold and record that same threshold; recording the stored "
            "one would let results skipped under a high threshold look like a completed analysis later",
-           form=f"constructor threshold <- {sorted(prov_ctor)}; {len(gates)} gating test(s) on the current option: {gate_current}")
-    rerun = [n for n in gates if any(isinstance(s, ast.Return) and txt(s.value) == "None" for s in n.body)]
-    ok = False
-    if rerun:
-        texts = [txt(rerun[0].test)]
-        for name in {n.id for n in ast.walk(rerun[0].test) if isinstance(n, ast.Name)}:
-            texts += [txt(v) for v in bound_from(func, name)]
-        ok = any('json["threshold"]' in t.replace("'", '"') for t in texts) and any("tta_threshold" in t for t in texts)
-    ctx.ob("R11.4", TTA, rerun[0] if rerun else func, qual, "skipped results are redone", ok,
+           form=f"constructor threshold <- {sorted(prov_ctor)}; {len(skips)} skipping return(s) gated by the current option: {gate_current}")
+    reruns = [(r, conds) for r, conds in gated if r.value is None or txt(r.value) == "None"]
+    ok = any(any('json["threshold"]' in c for c in conds) and any("tta_threshold" in c for c in conds) for _, conds in reruns)
+    ctx.ob("R11.4", TTA, reruns[0][0] if reruns else func, qual, "skipped results are redone", ok,
            "results that were skipped under the stored threshold but would run under the current one are discarded (rerun)",
-           form=txt(rerun[0].test) if rerun else "")
+           form="; ".join(reruns[0][1])[:160] if reruns else "")
 
 
 RECORD = "antismash/common/secmet/record.py"
